@@ -1,13 +1,15 @@
 // Package vlib is the common reporting layer of every check: command-line contract,
-// violation de-duplication by signature, known-findings lookup, replay files and
-// evidence files (EVIDENCE.schema.json).
+// violation de-duplication by cause signature, known-findings lookup, replay files,
+// evidence files (EVIDENCE.schema.json) and sharding of work over worker processes.
 package vlib
 
 import (
+	"bytes"
 	"encoding/json"
 	"flag"
 	"fmt"
 	"os"
+	"os/exec"
 	"path/filepath"
 	"sort"
 	"strconv"
@@ -30,7 +32,7 @@ type Violation struct {
 	Signature string `json:"signature"`
 	What      string `json:"what"`
 	Replay    any    `json:"replay"`
-	Count     int    `json:"count"`
+	Count     int64  `json:"count"`
 }
 
 type Run struct {
@@ -45,27 +47,45 @@ type Run struct {
 	Workers  int
 	Scratch  string
 
+	worker, nworkers, startAfter int
+	workerOut                    string
+
 	start time.Time
 	mu    sync.Mutex
-	viol  map[string]*Violation
-	order []string
+	st    state
 	known []Known
 
 	Assumptions []string
 	Extra       map[string]any // extra coverage keys
-	samples     []any
-	caps        []string
+	// OnCrash is called in the parent when a worker process dies while working on item idx.
+	OnCrash   func(idx int, output string)
+	lastFlush time.Time
+}
+
+// state is everything that is merged from workers into the parent.
+type state struct {
+	Viol     map[string]*Violation      `json:"viol"`
+	Counters map[string]int64           `json:"counters"`
+	Sets     map[string]map[string]bool `json:"sets"`
+	Samples  []any                      `json:"samples"`
+	Caps     []string                   `json:"caps"`
+	DoneThru int                        `json:"done_thru"`
+	Complete bool                       `json:"complete"`
 }
 
 var (
-	fTier     = flag.String("tier", "quick", "quick|thorough")
-	fEvidence = flag.String("evidence", "", "evidence file to write")
-	fKnown    = flag.String("known", "", "known_findings.json")
-	fReplays  = flag.String("replays", "", "directory for replay artefacts")
-	fBudget   = flag.Duration("budget", 0, "wall-clock budget")
-	fReplay   = flag.String("replay", "", "replay one recorded case")
-	fWorkers  = flag.Int("workers", 16, "parallel workers")
-	fScratch  = flag.String("scratch", "", "scratch directory (removed by the caller)")
+	fTier       = flag.String("tier", "quick", "quick|thorough")
+	fEvidence   = flag.String("evidence", "", "evidence file to write")
+	fKnown      = flag.String("known", "", "known_findings.json")
+	fReplays    = flag.String("replays", "", "directory for replay artefacts")
+	fBudget     = flag.Duration("budget", 0, "wall-clock budget")
+	fReplay     = flag.String("replay", "", "replay one recorded case")
+	fWorkers    = flag.Int("workers", 16, "parallel workers")
+	fScratch    = flag.String("scratch", "", "scratch directory (removed by the caller)")
+	fWorker     = flag.Int("worker", -1, "internal: worker index")
+	fNWorkers   = flag.Int("nworkers", 0, "internal: number of workers")
+	fStartAfter = flag.Int("startafter", -1, "internal: skip items <= this index")
+	fWorkerOut  = flag.String("workerout", "", "internal: partial result file")
 )
 
 // Start parses the common flags.
@@ -75,12 +95,21 @@ func Start(prop string) *Run {
 	}
 	r := &Run{Prop: prop, Tier: *fTier, Evidence: *fEvidence, KnownF: *fKnown, Replays: *fReplays,
 		Budget: *fBudget, ReplayIn: *fReplay, Workers: *fWorkers, Scratch: *fScratch,
-		start: time.Now(), viol: map[string]*Violation{}, Extra: map[string]any{}}
+		worker: *fWorker, nworkers: *fNWorkers, startAfter: *fStartAfter, workerOut: *fWorkerOut,
+		start: time.Now(), Extra: map[string]any{}}
+	r.st = newState()
 	if s := os.Getenv("VERIF_SEED"); s != "" {
 		r.Seed, _ = strconv.Atoi(s)
 	}
 	if r.Tier != "quick" && r.Tier != "thorough" {
 		Fatalf("bad tier %q", r.Tier)
+	}
+	if r.Scratch == "" {
+		d, err := os.MkdirTemp("", "verif-scratch-")
+		if err != nil {
+			Fatalf("%v", err)
+		}
+		r.Scratch = d
 	}
 	if r.KnownF != "" {
 		b, err := os.ReadFile(r.KnownF)
@@ -94,6 +123,10 @@ func Start(prop string) *Run {
 	return r
 }
 
+func newState() state {
+	return state{Viol: map[string]*Violation{}, Counters: map[string]int64{}, Sets: map[string]map[string]bool{}, DoneThru: -1}
+}
+
 // Fatalf reports a harness error (exit 2): never a verdict.
 func Fatalf(format string, a ...any) {
 	fmt.Fprintf(os.Stderr, "HARNESS-ERROR: "+format+"\n", a...)
@@ -101,13 +134,12 @@ func Fatalf(format string, a ...any) {
 }
 
 func (r *Run) Thorough() bool { return r.Tier == "thorough" }
-
-// Deadline returns the instant after which explorations should stop (and say so).
-func (r *Run) Deadline() time.Time {
-	if r.Budget == 0 {
-		return time.Time{}
+func (r *Run) IsWorker() bool { return r.worker >= 0 }
+func (r *Run) WorkerIndex() int {
+	if r.worker < 0 {
+		return 0
 	}
-	return r.start.Add(r.Budget)
+	return r.worker
 }
 
 func (r *Run) Expired() bool {
@@ -117,28 +149,88 @@ func (r *Run) Expired() bool {
 // Cap records that a cap was hit (the run is then not exhaustive for that part).
 func (r *Run) Cap(what string) {
 	r.mu.Lock()
-	r.caps = append(r.caps, what)
+	for _, c := range r.st.Caps {
+		if c == what {
+			r.mu.Unlock()
+			return
+		}
+	}
+	r.st.Caps = append(r.st.Caps, what)
 	r.mu.Unlock()
 }
 
 // Sample records an actual explored case for the evidence file (keeps the first few).
 func (r *Run) Sample(s any) {
 	r.mu.Lock()
-	if len(r.samples) < 8 {
-		r.samples = append(r.samples, s)
+	if len(r.st.Samples) < 6 {
+		r.st.Samples = append(r.st.Samples, s)
 	}
 	r.mu.Unlock()
+}
+
+// Add adds n to a named counter.
+func (r *Run) Add(name string, n int64) {
+	r.mu.Lock()
+	r.st.Counters[name] += n
+	r.mu.Unlock()
+}
+
+// Max keeps the maximum of a named counter.
+func (r *Run) Max(name string, n int64) {
+	r.mu.Lock()
+	if n > r.st.Counters["max:"+name] {
+		r.st.Counters["max:"+name] = n
+	}
+	r.mu.Unlock()
+}
+
+func (r *Run) Get(name string) int64 {
+	r.mu.Lock()
+	defer r.mu.Unlock()
+	return r.st.Counters[name]
+}
+
+func (r *Run) GetMax(name string) int64 { return r.Get("max:" + name) }
+
+// Outcome records a member of a named set of distinct observed outcomes (bounded at 100000).
+func (r *Run) Outcome(set, member string) {
+	r.mu.Lock()
+	m := r.st.Sets[set]
+	if m == nil {
+		m = map[string]bool{}
+		r.st.Sets[set] = m
+	}
+	if len(m) < 100000 {
+		m[member] = true
+	}
+	r.mu.Unlock()
+}
+
+func (r *Run) NumOutcomes(set string) int64 {
+	r.mu.Lock()
+	defer r.mu.Unlock()
+	return int64(len(r.st.Sets[set]))
+}
+
+func (r *Run) Outcomes(set string) []string {
+	r.mu.Lock()
+	defer r.mu.Unlock()
+	var o []string
+	for k := range r.st.Sets[set] {
+		o = append(o, k)
+	}
+	sort.Strings(o)
+	return o
 }
 
 // Violation records a failing case. Only the first replay per signature is kept.
 func (r *Run) Violation(sig, what string, replay any) {
 	r.mu.Lock()
 	defer r.mu.Unlock()
-	v, ok := r.viol[sig]
+	v, ok := r.st.Viol[sig]
 	if !ok {
 		v = &Violation{Signature: sig, What: what, Replay: replay}
-		r.viol[sig] = v
-		r.order = append(r.order, sig)
+		r.st.Viol[sig] = v
 	}
 	v.Count++
 }
@@ -146,7 +238,7 @@ func (r *Run) Violation(sig, what string, replay any) {
 func (r *Run) NumViolations() int {
 	r.mu.Lock()
 	defer r.mu.Unlock()
-	return len(r.viol)
+	return len(r.st.Viol)
 }
 
 func (r *Run) isKnownOpen(sig string) *Known {
@@ -158,6 +250,237 @@ func (r *Run) isKnownOpen(sig string) *Known {
 	}
 	return nil
 }
+
+func (r *Run) merge(o *state) {
+	r.mu.Lock()
+	defer r.mu.Unlock()
+	for sig, v := range o.Viol {
+		if mine, ok := r.st.Viol[sig]; ok {
+			mine.Count += v.Count
+		} else {
+			r.st.Viol[sig] = v
+		}
+	}
+	for k, v := range o.Counters {
+		if strings.HasPrefix(k, "max:") {
+			if v > r.st.Counters[k] {
+				r.st.Counters[k] = v
+			}
+		} else {
+			r.st.Counters[k] += v
+		}
+	}
+	for s, m := range o.Sets {
+		if r.st.Sets[s] == nil {
+			r.st.Sets[s] = map[string]bool{}
+		}
+		for k := range m {
+			r.st.Sets[s][k] = true
+		}
+	}
+	for _, s := range o.Samples {
+		if len(r.st.Samples) < 6 {
+			r.st.Samples = append(r.st.Samples, s)
+		}
+	}
+	for _, c := range o.Caps {
+		dup := false
+		for _, x := range r.st.Caps {
+			dup = dup || x == c
+		}
+		if !dup {
+			r.st.Caps = append(r.st.Caps, c)
+		}
+	}
+}
+
+func (r *Run) flush(doneThru int, complete bool) {
+	r.mu.Lock()
+	r.st.DoneThru, r.st.Complete = doneThru, complete
+	b, err := json.Marshal(&r.st)
+	r.mu.Unlock()
+	if err != nil {
+		Fatalf("flush: %v", err)
+	}
+	tmp := r.workerOut + ".tmp"
+	if err := os.WriteFile(tmp, b, 0o644); err != nil {
+		Fatalf("flush: %v", err)
+	}
+	os.Rename(tmp, r.workerOut)
+}
+
+// Distribute runs f(i) for every i in [0,n) spread over worker *processes* (code under a
+// global controlled scheduler, or code that may crash fatally, needs one process per
+// worker). In the parent it returns after all workers' results are merged; a worker
+// process exits inside Distribute. A harness may call Distribute once.
+func (r *Run) Distribute(n int, f func(i int)) {
+	if r.IsWorker() {
+		last := r.startAfter
+		for i := 0; i < n; i++ {
+			if i%r.nworkers != r.worker || i <= r.startAfter {
+				continue
+			}
+			if stopBefore >= 0 && i >= stopBefore {
+				break
+			}
+			os.WriteFile(r.workerOut+".cur", []byte(strconv.Itoa(i)), 0o644)
+			f(i)
+			last = i
+			if time.Since(r.lastFlush) > 500*time.Millisecond {
+				r.flush(last, false)
+				r.lastFlush = time.Now()
+			}
+		}
+		r.flush(last, true)
+		os.Exit(0)
+	}
+	if r.Workers == 1 {
+		// in-process (debugging, or harnesses that are cheap)
+		for i := 0; i < n; i++ {
+			f(i)
+		}
+		return
+	}
+	nw := r.Workers
+	if nw > n {
+		nw = n
+	}
+	if nw < 1 {
+		nw = 1
+	}
+	var wg sync.WaitGroup
+	for k := 0; k < nw; k++ {
+		wg.Add(1)
+		go func(k int) {
+			defer wg.Done()
+			startAfter := -1
+			for attempt := 0; ; attempt++ {
+				out := filepath.Join(r.Scratch, fmt.Sprintf("worker%d.%d.json", k, attempt))
+				wscratch := filepath.Join(r.Scratch, fmt.Sprintf("w%d", k))
+				os.MkdirAll(wscratch, 0o755)
+				args := []string{}
+				skip := false
+				for _, a := range os.Args[1:] {
+					if skip {
+						skip = false
+						continue
+					}
+					if a == "-scratch" || a == "--scratch" || a == "-evidence" || a == "--evidence" {
+						skip = true
+						continue
+					}
+					args = append(args, a)
+				}
+				remaining := time.Duration(0)
+				if r.Budget != 0 {
+					remaining = r.Budget - time.Since(r.start)
+					if remaining < time.Second {
+						remaining = time.Second
+					}
+				}
+				args = append(args, "-worker", strconv.Itoa(k), "-nworkers", strconv.Itoa(nw), "-startafter", strconv.Itoa(startAfter),
+					"-workerout", out, "-scratch", wscratch, "-budget", remaining.String())
+				cmd := exec.Command(os.Args[0], args...)
+				var buf bytes.Buffer
+				cmd.Stdout, cmd.Stderr = &buf, &buf
+				cmd.Env = append(os.Environ(), "GOMAXPROCS=2")
+				err := cmd.Run()
+				var st state
+				b, rerr := os.ReadFile(out)
+				if rerr == nil {
+					st = newState()
+					if jerr := json.Unmarshal(b, &st); jerr != nil {
+						Fatalf("worker %d: bad partial file: %v", k, jerr)
+					}
+					r.merge(&st)
+				}
+				if err == nil && rerr == nil && st.Complete {
+					if buf.Len() > 0 && os.Getenv("VERIF_VERBOSE") != "" {
+						os.Stderr.Write(buf.Bytes())
+					}
+					return
+				}
+				// abnormal exit: attribute to the item in progress, restart after it
+				curB, _ := os.ReadFile(out + ".cur")
+				cur, cerr := strconv.Atoi(strings.TrimSpace(string(curB)))
+				tail := buf.String()
+				if len(tail) > 4000 {
+					tail = tail[:2000] + "\n...\n" + tail[len(tail)-2000:]
+				}
+				if ee, ok := err.(*exec.ExitError); ok && ee.ExitCode() == 2 && !strings.Contains(tail, "fatal error") && !strings.Contains(tail, "panic:") {
+					fmt.Fprint(os.Stderr, tail)
+					Fatalf("worker %d reported a harness error", k)
+				}
+				if cerr != nil || r.OnCrash == nil {
+					fmt.Fprint(os.Stderr, tail)
+					Fatalf("worker %d died (%v) on item %v", k, err, string(curB))
+				}
+				r.OnCrash(cur, tail)
+				// items between the last flush and cur are redone (their counters were not merged)
+				if rerr == nil {
+					startAfter = st.DoneThru
+				}
+				if cur > startAfter {
+					// redo (startAfter, cur) but skip cur itself: handled by running a one-off worker range
+					// simplification: resume after the crashed item; items in (DoneThru, cur) of this
+					// worker are re-run first with a dedicated pass.
+					r.redo(k, nw, startAfter, cur, f)
+					startAfter = cur
+				}
+				if attempt > 200 {
+					Fatalf("worker %d: too many crashes", k)
+				}
+			}
+		}(k)
+	}
+	wg.Wait()
+}
+
+// redo re-runs, in fresh worker processes, the items of worker k in (after, before) that were
+// processed but not flushed before a crash. It is rare and small (<= 0.5 s of work).
+func (r *Run) redo(k, nw, after, before int, f func(int)) {
+	// The lost items completed without crashing, so they cannot have been violations that
+	// kill the process; their in-memory violations/counters are lost. Re-run them in a worker
+	// limited to that range by using startafter and an upper bound env.
+	if before-after <= 1 {
+		return
+	}
+	out := filepath.Join(r.Scratch, fmt.Sprintf("redo%d.%d.json", k, before))
+	args := []string{}
+	skip := false
+	for _, a := range os.Args[1:] {
+		if skip {
+			skip = false
+			continue
+		}
+		if a == "-scratch" || a == "--scratch" || a == "-evidence" || a == "--evidence" {
+			skip = true
+			continue
+		}
+		args = append(args, a)
+	}
+	wscratch := filepath.Join(r.Scratch, fmt.Sprintf("w%d", k))
+	args = append(args, "-worker", strconv.Itoa(k), "-nworkers", strconv.Itoa(nw), "-startafter", strconv.Itoa(after), "-workerout", out, "-scratch", wscratch)
+	cmd := exec.Command(os.Args[0], args...)
+	cmd.Env = append(os.Environ(), "GOMAXPROCS=2", "VERIF_STOP_BEFORE="+strconv.Itoa(before))
+	cmd.Run()
+	if b, err := os.ReadFile(out); err == nil {
+		st := newState()
+		if json.Unmarshal(b, &st) == nil {
+			r.merge(&st)
+		}
+	}
+}
+
+// StopBefore is consulted by Distribute's worker loop through the environment (redo passes).
+func init() {
+	if s := os.Getenv("VERIF_STOP_BEFORE"); s != "" {
+		n, _ := strconv.Atoi(s)
+		stopBefore = n
+	}
+}
+
+var stopBefore = -1
 
 // Coverage is what Finish writes under "coverage".
 type Coverage struct {
@@ -190,12 +513,21 @@ func sanitize(s string) string {
 
 // Finish writes the evidence file, prints the verdict lines and exits.
 func (r *Run) Finish(c Coverage) {
+	if r.IsWorker() {
+		// a harness that did not call Distribute in worker mode
+		r.flush(1<<30, true)
+		os.Exit(0)
+	}
 	wall := time.Since(r.start).Seconds()
 	unknown := 0
-	sort.Strings(r.order)
+	var order []string
+	for sig := range r.st.Viol {
+		order = append(order, sig)
+	}
+	sort.Strings(order)
 	var lines []string
-	for _, sig := range r.order {
-		v := r.viol[sig]
+	for _, sig := range order {
+		v := r.st.Viol[sig]
 		if k := r.isKnownOpen(sig); k != nil {
 			lines = append(lines, fmt.Sprintf("KNOWN-FINDING: property=%s %s [%s] (%d cases; e.g. %s)", r.Prop, k.What, sig, v.Count, v.What))
 			continue
@@ -213,7 +545,7 @@ func (r *Run) Finish(c Coverage) {
 		lines = append(lines, fmt.Sprintf("VIOLATION property=%s replay=%s", r.Prop, path))
 		lines = append(lines, fmt.Sprintf("  signature=%s cases=%d: %s", sig, v.Count, v.What))
 	}
-	if len(r.caps) > 0 {
+	if len(r.st.Caps) > 0 {
 		c.Exhaustive = false
 	}
 	if r.Evidence != "" {
@@ -221,24 +553,28 @@ func (r *Run) Finish(c Coverage) {
 			"evaluations":                   c.Evaluations,
 			"distinct_nontrivial":           c.DistinctNontrivial,
 			"rule":                          c.Rule,
-			"samples":                       r.samples,
+			"samples":                       r.st.Samples,
 			"states":                        c.States,
 			"transitions":                   c.Transitions,
 			"traces_validated_against_impl": c.TracesValidated,
 			"exhaustive":                    c.Exhaustive,
 			"distinct_outcomes":             c.Outcomes,
 			"bounds":                        c.Bounds,
-			"caps_hit":                      r.caps,
+			"caps_hit":                      r.st.Caps,
+			"counters":                      r.st.Counters,
 		}
-		if len(r.samples) == 0 {
+		if len(r.st.Samples) == 0 {
 			cov["samples"] = []any{"(none recorded)"}
+		}
+		if r.st.Caps == nil {
+			cov["caps_hit"] = []string{}
 		}
 		for k, v := range r.Extra {
 			cov[k] = v
 		}
 		sigs := []map[string]any{}
-		for _, sig := range r.order {
-			v := r.viol[sig]
+		for _, sig := range order {
+			v := r.st.Viol[sig]
 			sigs = append(sigs, map[string]any{"signature": sig, "cases": v.Count, "known_open": r.isKnownOpen(sig) != nil, "example": v.What})
 		}
 		cov["violation_signatures"] = sigs
@@ -262,14 +598,14 @@ func (r *Run) Finish(c Coverage) {
 		fmt.Println(l)
 	}
 	fmt.Printf("%s %s: evaluations=%d distinct_nontrivial=%d states=%d transitions=%d outcomes=%d exhaustive=%v caps=%v wall=%.1fs violations=%d\n",
-		r.Prop, r.Tier, c.Evaluations, c.DistinctNontrivial, c.States, c.Transitions, c.Outcomes, c.Exhaustive, r.caps, wall, unknown)
+		r.Prop, r.Tier, c.Evaluations, c.DistinctNontrivial, c.States, c.Transitions, c.Outcomes, c.Exhaustive, r.st.Caps, wall, unknown)
 	if unknown > 0 {
 		os.Exit(1)
 	}
 	os.Exit(0)
 }
 
-// Parallel runs f(i) for i in [0,n) on r.Workers goroutines.
+// Parallel runs f(i) for i in [0,n) on r.Workers goroutines (in-process; for pure code).
 func (r *Run) Parallel(n int, f func(i int)) {
 	w := r.Workers
 	if w < 1 {
